@@ -169,10 +169,17 @@ func finish(def PropertyDef, rep *Report, c *Ctx, tier string, seed int, wall fl
 	// pass vacuously, so it fails instead.
 	floors := map[string]any{}
 	for _, rd := range def.Rules {
-		floors[rd.ID] = map[string]int{"floor": rd.Floor, "instances": perRule[rd.ID]}
-		if perRule[rd.ID] < rd.Floor {
+		// The floor guards against a rule that silently matches (almost) nothing. It is
+		// set to half of what was confirmed by hand: extracting a shared helper or
+		// merging duplicated call sites legitimately lowers the count.
+		eff := (rd.Floor + 1) / 2
+		if eff < 1 {
+			eff = 1
+		}
+		floors[rd.ID] = map[string]int{"confirmed_by_hand": rd.Floor, "floor": eff, "instances": perRule[rd.ID]}
+		if perRule[rd.ID] < eff {
 			rep.Obs = append(rep.Obs, Obligation{Rule: rd.ID, Key: "floor", Pos: "-", Verdict: Undecided,
-				Detail: fmt.Sprintf("rule matched %d instances, fewer than the %d confirmed by hand: the anchors moved or the recogniser no longer sees them", perRule[rd.ID], rd.Floor)})
+				Detail: fmt.Sprintf("rule matched %d instances, fewer than the floor %d (half of the %d confirmed by hand): the anchors moved or the recogniser no longer sees them", perRule[rd.ID], eff, rd.Floor)})
 		}
 	}
 	sort.SliceStable(rep.Obs, func(i, j int) bool {
